@@ -296,7 +296,7 @@ def main(ctx):
     if ctx.is_quick():
         ctx.shards("shard", [{"n": 8, "sub": s, "depth": 4} for s in range(16)], timeout=600)
     else:
-        ctx.shards("shard", [{"n": 90, "sub": s, "depth": 6} for s in range(16)], timeout=3400)
+        ctx.shards("shard", [{"n": 600, "sub": s, "depth": 6} for s in range(16)], timeout=3400)
     ctx.require("jobs_audited", 500)
     ctx.require("merkle_hashes_recomputed", 300)
     ctx.require("value_rows_audited", 1000)
